@@ -190,9 +190,7 @@ def expected_outcome(site, kind, loop_yes):
         return 'raise'
     if kind == 'Exit':
         return 'return' if base in ('init', 'setup', 'loop_once', 'shutdown', 'send_exit_msg', 'fini') else None
-    if kind == 'PropagateError':
-        if base == 'loop_once' and not loop_yes:
-            return None
+    if kind == 'PropagateError':     # the control-flow exception of an obeyed error exit: LOOP_EXC=false (log loop errors and carry on) does not apply to it
         return 'return' if base in ('setup', 'loop_once', 'shutdown') else None
     return None
 
@@ -255,7 +253,7 @@ def r1(rr, repo):
             rr.ob('the stop event is set on every exit of run(), as the last lifecycle action', bool(tr) and tr[-1] == 'stop_evt.set', mod, run, witness=w, key='stop_evt-last')
             # d
             sent = [t for t in tr if t.startswith('send_exit_msg(')]
-            inflight = kind if (kind is not None and base in ('setup', 'loop_once', 'shutdown') and not (base == 'loop_once' and not loop_yes and kind in ('Exception', 'PropagateError'))) else None
+            inflight = kind if (kind is not None and base in ('setup', 'loop_once', 'shutdown') and not (base == 'loop_once' and not loop_yes and kind == 'Exception')) else None
             is_exc = inflight in ('Exception', 'PropagateError')
             bit = FL['error'] if is_exc else FL['clean']
             want = init_ok and bool(FL[prop] & bit) and not (base in ('send_exit_msg',) and False)
@@ -684,6 +682,31 @@ def r7(rr, repo):
     for c in [c for c in q.calls_in(sp) if U(c.func) == 'self.push.send_multipart']:
         g = [('' if pol else 'not ') + U(t) for t, pol in q.guards_of(c, stop=sp)]
         rr.ob('Sender.send_push writes to the request socket whenever the channel has one (ephemeral < 2), whatever the connection state', g == ['self.ephemeral < 2'], zmod, c, witness=' && '.join(g)[:160] or 'unguarded', key='send-push-guard')
+    # a filter that has nothing to publish still reads its request sockets (the only place a downstream exit announcement can arrive): every return of MQ.send that
+    # does not go through sender.send(...) services the sender first, and that service call can publish nothing
+    mqm_, mqsend = repo.find(f'{MQF}::MQ.send')
+    early = [n for n in mqsend.body if isinstance(n, ast.If) and 'frames is None' in U(n.test) and any(isinstance(x, ast.Return) for x in n.body)]
+    rr.floor('early returns of MQ.send for "nothing to publish"', len(early), 1, mqm_, mqsend)
+    uses_poll = False
+    for blk in early:
+        ret = next(x for x in blk.body if isinstance(x, ast.Return))
+        svc = [c for st_ in blk.body[:blk.body.index(ret)] for c in q.calls_in(st_) if isinstance(c.func, ast.Attribute) and U(c.func.value) == 'self.sender' and c.func.attr in ('poll', 'send')]
+        extra = [[U(t) for t, pol in q.guards_of(c, stop=blk)] for c in svc]
+        ok = bool(svc) and all(g in ([], ['self.sender is not None']) for g in extra)
+        uses_poll |= any(c.func.attr == 'poll' for c in svc)
+        rr.ob('MQ.send: the return that publishes nothing (frames is None) still services the request sockets of the sender, whenever there is a sender', ok, mqm_, ret,
+              witness=f'sender calls before the return: {[U(c)[:40] for c in svc] or "none"}; conditions: {extra}', key='none-path-services-requests')
+        for c in svc:
+            if c.func.attr == 'send':
+                a0 = c.args[0] if c.args else None
+                rr.ob('the service call can publish nothing (its callable yields None)', isinstance(a0, ast.Lambda) and isinstance(a0.body, ast.Constant) and a0.body.value is None, mqm_, c, witness=U(c)[:80], key='service-publishes-nothing')
+    if uses_poll:
+        _, pollfn = repo.find(f'{Z}::ZMQSender.poll')
+        pc = [c for c in q.calls_in(pollfn) if U(c.func) == 'self.send']
+        okp = len(pc) == 1 and pc[0].args and isinstance(pc[0].args[0], ast.Lambda) and isinstance(pc[0].args[0].body, ast.Constant) and pc[0].args[0].body.value is None and \
+            any(k.arg == 'timeout' and isinstance(k.value, ast.Constant) and k.value.value == 0 for k in pc[0].keywords) and not any(k.arg == 'push' for k in pc[0].keywords)
+        rr.ob('ZMQSender.poll runs the request loop of send() with a callable that yields nothing to publish, without waiting and without forcing a publish', okp, zmod, pc[0] if pc else pollfn,
+              witness=U(pc[0])[:100] if pc else 'no call of self.send', key='poll-publishes-nothing')
     # the callback is the constructor argument (defaulting to a no-op), stored once
     for cls in ('ZMQSender', 'ZMQReceiver'):
         _, init = repo.find(f'{Z}::{cls}.__init__')
